@@ -55,7 +55,7 @@ theorem deliver_lock (s : Srv) (to : Tok) (frm : Frm) (m3 : Bool) : (deliver s t
   unfold deliver
   cases to <;> cases frm <;> simp <;> split <;> simp
 
-theorem storeAndFlush_lock (s : Srv) (t : TRef) : (storeAndFlush s t).treeLock = s.treeLock := rfl
+theorem storeAndFlush_lock (s : Srv) (t : TRef) (r : RoRef) : (storeAndFlush s t r).treeLock = s.treeLock := rfl
 
 theorem sendTree_lock (s : Srv) (tm : Option TM) (ro : Option Ro) :
     (sendTree s tm ro).2.treeLock = s.treeLock := by
@@ -121,8 +121,8 @@ theorem deliver_slot (s : Srv) (to : Tok) (frm : Frm) (m3 : Bool) : (deliver s t
   unfold deliver
   cases to <;> cases frm <;> simp <;> split <;> simp
 
-theorem storeAndFlush_keeps (s : Srv) (t x : TRef) (h : s.slot x = .present) :
-    (storeAndFlush s t).slot x = .present := by
+theorem storeAndFlush_keeps (s : Srv) (t x : TRef) (r : RoRef) (h : s.slot x = .present) :
+    (storeAndFlush s t r).slot x = .present := by
   simp only [storeAndFlush]
   exact upd_present h (.inl rfl)
 
@@ -142,13 +142,13 @@ theorem sendTree_keeps (s : Srv) (tm : Option TM) (ro : Option Ro) (x : TRef) (h
         split
         · simpa
         · split
-          · exact storeAndFlush_keeps s tm.id x h
+          · exact storeAndFlush_keeps s tm.id x _ h
           · simpa
 
 theorem foldl_keeps (ro : Ro) (l : List TM) (s : Srv) (x : TRef) (h : s.slot x = .present) :
     (l.foldl (fun acc tm =>
         if acc.slot tm.id = .present then acc
-        else if makeTree tm ro then storeAndFlush acc tm.id else acc) s).slot x = .present := by
+        else if makeTree tm ro then storeAndFlush acc tm.id ro.id else acc) s).slot x = .present := by
   induction l generalizing s with
   | nil => simpa
   | cons tm l ih =>
@@ -157,7 +157,7 @@ theorem foldl_keeps (ro : Ro) (l : List TM) (s : Srv) (x : TRef) (h : s.slot x =
     split
     · exact h
     · split
-      · exact storeAndFlush_keeps s tm.id x h
+      · exact storeAndFlush_keeps s tm.id x _ h
       · exact h
 
 /-- **a known tree cannot be taken away or replaced** by any envelope -/
